@@ -2,6 +2,7 @@ package pbar
 
 import (
 	"io"
+	"sync"
 
 	"github.com/vbauerster/mpb/v8"
 )
@@ -34,6 +35,7 @@ func NewNoopBar() Bar {
 
 type bar struct {
 	b     *mpb.Bar
+	once  sync.Once // guards the lazy creation of b: Incr is called from several goroutines
 	c     *Container
 	total int64
 	name  string
@@ -50,11 +52,9 @@ func newBar(c *Container, total int64, name string, unit int) *bar {
 }
 
 func (b *bar) ensureInternalBar() {
-	if b.b != nil {
-		return
-	}
-	b.c.ensureProgress()
-	b.b = b.c.addBar(b.total, b.name, b.unit)
+	b.once.Do(func() {
+		b.b = b.c.addBar(b.total, b.name, b.unit)
+	})
 }
 
 func (b *bar) Incr() {
